@@ -47,6 +47,12 @@ pub fn menu() -> Vec<Entry> {
     entry("no-sysfs", 5, Some("Nosys keyboard"), None, Some("120013"), Some(KB_KEYS)),
     entry("no-ev", 6, Some("Noev device"), Some("/devices/platform/y/input/input6"), None, Some(KB_KEYS)),
     entry("no-key", 8, Some("Nokey keyboard"), Some("/devices/platform/z/input/input8"), Some("120013"), None),
+    // entries that sit on a decision boundary of the heuristic, so that a field leaking in from the previous entry flips them
+    entry("no-ev-mouse-name", 12, Some("Noev Mouse"), Some("/devices/platform/w/input/input12"), None, Some(KB_KEYS)),
+    entry("no-ev-scroll", 13, Some("Noev Pad"), Some("/devices/platform/v/input/input13"), None, Some(MOUSE_KEYS)),
+    entry("no-name-scroll-leds", 14, None, Some("/devices/platform/u/input/input14"), Some("120013"), Some(MOUSE_KEYS)),
+    entry("no-name-mousey", 15, None, Some("/devices/platform/t/input/input15"), Some("100017"), Some(MOUSE_KEYS)),
+    entry("mouse-name-leds", 16, Some("Fancy Mouse Pad"), Some("/devices/platform/s/input/input16"), Some("120013"), Some(KB_KEYS)),
   ]
 }
 
@@ -80,7 +86,7 @@ pub fn run(ctx: &Ctx) -> Outcome {
   let menu = menu();
   let k = menu.len();
   let single: Vec<(Vec<(String, String)>, Vec<(String, String, bool)>)> = menu.iter().map(|e| (crate::keyboard_listing::verif_extract_keyboards(&e.text), crate::keyboard_listing::verif_extract_input_devices(&e.text))).collect();
-  let maxlen = if q { 2 } else { 4 };
+  let maxlen = if q { 3 } else { 4 };
   let mut total = 0usize;
   for l in 1..=maxlen { total += k.pow(l as u32); }
   #[derive(Default)]
@@ -176,7 +182,7 @@ fn namespace_tier(ctx: &Ctx, menu: &[Entry], single: &[(Vec<(String, String)>, V
   let mut seqs: Vec<Vec<usize>> = (0..k).map(|i| vec![i]).collect();
   seqs.push((0..k).collect());
   seqs.push((0..k).rev().collect());
-  if !q { for a in 0..k { for b in 0..k { if a != b { seqs.push(vec![a, b]); } } } } else { seqs.push(vec![0, 2]); seqs.push(vec![2, 0]); seqs.push(vec![8, 1]); seqs.push(vec![5, 0]); seqs.push(vec![12, 3, 1]); }
+  if !q { for a in 0..k { for b in 0..k { if a != b { seqs.push(vec![a, b]); } } } } else { seqs.push(vec![0, 2]); seqs.push(vec![2, 0]); seqs.push(vec![8, 1]); seqs.push(vec![5, 0]); seqs.push(vec![12, 3, 1]); for b in 10..k { seqs.push(vec![0, b]); seqs.push(vec![2, b]); seqs.push(vec![7, b]); } }
   let case_sets: Vec<&Vec<&'static str>> = if q { sets.iter().take(6).collect() } else { sets.iter().collect() };
   let spec = json!({
     "bin": bin,
